@@ -34,6 +34,15 @@ def lemmas(tier):
             meta={"site": "Location == / != structural"},
         )
     )
+    out.append(
+        xh.Lemma(
+            "loc_eq_corpus",
+            [("i", "int"), ("j", "int")] + four,
+            ["return V.loc_eq_corpus(i, j, a, b, c, d)"],
+            pre=_pre("abcd") + ["0 <= i < len(V.URIS) and 0 <= j < len(V.URIS)"],
+            meta={"site": "Location == / != structural on uri pairs that differ only by case / percent-encoding / normalisation (all pairs of a 20-string corpus, chosen by symbolic index)"},
+        )
+    )
     for k, name in enumerate(("Position", "Range", "Location")):
         for kind, kn in enumerate(("int", "str", "tuple of the same numbers", "None", "instance of another class (1)", "instance of another class (2)", "list of the same numbers")):
             out.append(
